@@ -228,9 +228,35 @@ func (w *World) Verify(c *Contract) (res *TargetResult) {
 		results = []Val{rv}
 	}
 	for _, e := range c.Ensures {
+		var sk *skolem
+		if e.CaseVar != "" {
+			sk = &skolem{}
+			x.skolemNext = sk
+		}
 		t := x.evalClause(f, e, final, entry, args, results, nil)
-		x.oblige("post", fmt.Sprintf("ensures%d", e.N), e.Props, and(retReach, not(t)), fn, token.NoPos)
-		x.obls[len(x.obls)-1].Detail = e.Text
+		x.skolemNext = nil
+		if sk == nil {
+			x.oblige("post", fmt.Sprintf("ensures%d", e.N), e.Props, and(retReach, not(t)), fn, token.NoPos)
+			x.obls[len(x.obls)-1].Detail, x.obls[len(x.obls)-1].Clause = e.Text, e
+			continue
+		}
+		// `forall k :: body` as a postcondition is proved for an arbitrary constant k, by the
+		// exhaustive case split k == lo, ..., k == hi-1, k outside [lo,hi). Every case is an
+		// obligation; together they are equivalent to the unsplit one.
+		w, ok := bvWidth(sk.sort)
+		if sk.name == "" || !ok {
+			unsup("cases %s: the clause is not a top-level forall over an integer variable", e.CaseVar)
+		}
+		x.inputs = append(x.inputs, InputVar{"forall " + e.CaseVar, sk.v})
+		var outside []string
+		for k := e.CaseLo; k < e.CaseHi; k++ {
+			is := eq(sk.name, bvLit(uint64(k), w))
+			outside = append(outside, not(is))
+			x.oblige("post", fmt.Sprintf("ensures%d.%s=%d", e.N, e.CaseVar, k), e.Props, and(retReach, is, not(t)), fn, token.NoPos)
+			x.obls[len(x.obls)-1].Detail, x.obls[len(x.obls)-1].Clause = e.Text, e
+		}
+		x.oblige("post", fmt.Sprintf("ensures%d.%s=other", e.N, e.CaseVar), e.Props, and(append([]string{retReach}, append(outside, not(t))...)...), fn, token.NoPos)
+		x.obls[len(x.obls)-1].Detail, x.obls[len(x.obls)-1].Clause = e.Text, e
 	}
 	x.frameObligations(f, c, entry, final, args, retReach, allProps)
 	// vacuity: the preconditions admit an execution that returns
@@ -239,6 +265,15 @@ func (w *World) Verify(c *Contract) (res *TargetResult) {
 	x.finalizeEpochs()
 	x.finish(res)
 	return res
+}
+
+// bvWidth parses "(_ BitVec N)".
+func bvWidth(sort string) (int, bool) {
+	var w int
+	if _, err := fmt.Sscanf(sort, "(_ BitVec %d)", &w); err != nil || w <= 0 || w > 64 {
+		return 0, false
+	}
+	return w, true
 }
 
 func contractProps(c *Contract) []string {
